@@ -56,7 +56,7 @@ def check(tier):
     harness = vlib.cargo_build("c12")
     pr = vlib.prove(PROP, [EXTRACT])
     driver = vlib.ocaml_build(PROP, use_zutil=False)
-    shards, per = (8, 250) if tier == "quick" else (16, 5000)
+    shards, per = (8, 250) if tier == "quick" else (16, 1200)
     with concurrent.futures.ThreadPoolExecutor(shards) as ex:
         files = list(ex.map(lambda k: run_shard(harness, k, per, sd), range(shards)))
     results = []
